@@ -400,6 +400,13 @@ func (c *Conn) receive(ctx context.Context) error {
 				c.reportf("read call: %v", err)
 				continue
 			}
+			if !call.IsValid() {
+				// Null or non-struct pointer: the accessors would read
+				// zeroes, but there is no message to take params from.
+				releaseRecv()
+				c.reportf("read call: not a struct pointer")
+				continue
+			}
 			if err := c.handleCall(ctx, call, releaseRecv); err != nil {
 				return err
 			}
@@ -408,6 +415,11 @@ func (c *Conn) receive(ctx context.Context) error {
 			if err != nil {
 				releaseRecv()
 				c.reportf("read return: %v", err)
+				continue
+			}
+			if !ret.IsValid() {
+				releaseRecv()
+				c.reportf("read return: not a struct pointer")
 				continue
 			}
 			if err := c.handleReturn(ctx, ret, releaseRecv); err != nil {
